@@ -137,6 +137,72 @@ def replay_case(case):
     return bad
 
 
+# ------------------------------------------------------------------ specification forms (FormulaForms.tla)
+def gamma_form(f):
+    if f["k"] == "str":
+        return f["i"]
+    if f["k"] == "lst":
+        return list(f["items"])
+    if f["k"] == "tup":
+        return tuple(gamma_form(x) for x in f["items"])
+    return {k: gamma_form(v) for k, v in zip(f["keys"], f["items"])}
+
+
+def replay_form(case):
+    """One specification form (string / list / tuple / keywords, nested): Formula(spec) must denote the model's tree of term lists."""
+    from formulaic import Formula
+    from formulaic.errors import FormulaInvalidError, FormulaParsingError
+
+    from .. import palpha
+
+    spec = gamma_form(case["form"])
+    base = {"fid": "form", "nulls": {}, "na": "", "drop0": [], "output": "", "index": "", "spec": repr(spec)[:200]}
+    try:
+        F = Formula(**spec) if isinstance(spec, dict) else Formula(spec)
+    except (FormulaParsingError, FormulaInvalidError) as e:
+        return [] if case["err"] else [{**base, "why": "form rejected", "observed": type(e).__name__ + ": " + str(e)[:100], "expected": case["tree"]}]
+    except Exception as e:  # noqa
+        return [{**base, "why": "form: unexpected exception type", "observed": type(e).__name__ + ": " + str(e)[:100], "expected": case["err"] or case["tree"]}]
+    if case["err"]:
+        return [{**base, "why": "form accepted although the model rejects it", "observed": palpha.tree_str(palpha._simplify(F)), "expected": case["err"]}]
+    got = palpha.tree_str(palpha._simplify(F))
+    bad = []
+    if got != case["tree"]:
+        bad.append({**base, "why": "denotation of the specification form", "observed": got, "expected": case["tree"]})
+    # the same specification installed by mutation of an existing formula denotes the same member
+    if isinstance(spec, dict) and "x" in spec and not bad:
+        G = Formula(**{k: v for k, v in spec.items() if k != "x"}) if len(spec) > 1 else Formula(y="a")
+        if not isinstance(G, palpha.Structured):       # a root-only specification simplifies to a plain formula
+            G = Formula(y="a")
+        G.x = spec["x"]
+        gx = palpha.tree_str(palpha._simplify(G.x))
+        fx = palpha.tree_str(palpha._simplify(F.x))
+        if gx != fx:
+            bad.append({**base, "why": "member installed by attribute assignment differs from the constructed one", "observed": gx, "expected": fx})
+    return bad
+
+
+def forms_leg(ctx: Ctx):
+    out = workdir("c07") / "forms.ndjson"
+    out.unlink(missing_ok=True)
+    r = run_tlc("MC_FormulaForms", "SPECIFICATION Spec\nCONSTANTS\n  Emit = TRUE\nINVARIANT Laws\nINVARIANT EmitCase\n", tag="c07f", env={"OUT_FILE": str(out)}, timeout=1800)
+    if r.violated:
+        ctx.model_violation(r, "MC_FormulaForms")
+    ctx.add_tlc(r, "specification forms (string, list, tuple, keywords, nested): denotation through the main / nested parser, wrap law, keyword sides without intercept")
+    cases = read_emitted(out)
+    out.unlink()
+    if len(cases) != r.distinct:
+        raise MachineryError(f"emission incomplete: {len(cases)} of {r.distinct}")
+    res = pmap("harness.props.c07", "replay_form", cases, chunk=40)
+    for c, bad in zip(cases, res):
+        ctx.traces += 1
+        ctx.evaluations += 1
+        if c["form"]["k"] in ("tup", "kw") and not c["err"]:
+            ctx.nontrivial.add(jhash(["form", c["form"]]))
+        for b in bad:
+            ctx.violation({k: b[k] for k in ("fid", "nulls", "na", "drop0", "output", "index")} | {"spec": b["spec"]}, b, kind="replay")
+
+
 def run(ctx: Ctx) -> None:
     ctx.rule = ("9 structured formulas (two-sided, multi-part on either side, an empty part, tuple, keyword and nested keyword/tuple structure) x every "
                 "null pattern with <= MaxNulls nulls per column x policy x caller set; output and index kind cycled; non-trivial = nulls in the "
@@ -165,6 +231,7 @@ def run(ctx: Ctx) -> None:
             ctx.violation({k: b[k] for k in ("fid", "nulls", "na", "drop0", "output", "index")}, b, kind="replay")
     for c in [c for c in cases if c["fid"] == 12 and c["nulls"]["a"] and c["nulls"]["A"] and c["na"] == "drop"][:1]:
         ctx.sample({"formula": "Formula(x='b ~ a', y=('A', 'a'))", "nulls": c["nulls"], "kept": c["kept"], "parts": c["parts"]})
+    forms_leg(ctx)
     ctx.exhaustive = True
 
 
